@@ -173,7 +173,7 @@ func runC03(c *Ctx) {
 		}
 		return b == (bo.Op == token.EQL)
 	}
-	items := paramOf(tf, 2)
+	items := paramOfType(tf, "*github.com/go-openapi/spec.Items")
 	noItems := anyFact(factNil(vIs(items), true), factNil(vOrigins(oCall(-1, "(*rt/middleware.untypedParamBinder).typeForSchema")), true))
 	nNil := 0
 	for _, r := range returnsOf(tf) {
@@ -191,17 +191,21 @@ func runC03(c *Ctx) {
 	nRec := 0
 	for _, ci := range callsIn(tf, "(*rt/middleware.untypedParamBinder).typeForSchema") {
 		nRec++
-		_, a := callArgs(ci.Common())
 		isItems := vOrigins(oIsValue(items))
 		okAll := true
-		for k, fld := range []string{"Type", "Format", "Items"} {
-			b, ok := fieldLoad(a[k], simpleT, fld)
-			if !ok {
-				okAll = false
-				break
+		for _, fld := range []string{"Type", "Format", "Items"} {
+			// (whatever the position: the helper may have gained or lost a leading parameter)
+			found := false
+			for _, arg := range ci.Common().Args {
+				b, ok := fieldLoad(arg, simpleT, fld)
+				if !ok {
+					continue
+				}
+				if r, _, _, _ := chainRoot(b); isItems(r) {
+					found = true
+				}
 			}
-			r, _, _, _ := chainRoot(b)
-			if !isItems(r) {
+			if !found {
 				okAll = false
 			}
 		}
